@@ -16,6 +16,7 @@ from .. import panic as P
 from .. import spec as S
 from ..guard import N, arg, fld, deref, cn
 from . import c05
+from . import c07
 
 NUL = ("unsize", ("ref", ("aggr", ("array",), (("c", 0),))), "&[u8]", "&[u8; 1]")
 STRING_TAGS = {"CommandLineTag": ("cmdline", "Cmdline", 1, []), "BootLoaderNameTag": ("name", "BootLoaderName", 1, []),
@@ -131,8 +132,14 @@ def run(ctx):
                     with_nul = pcs
                 elif len(own) == 1 and own[0][0] == "not" and same_test(own[0][1]):
                     without = pcs
-            nfix = len(fixed)
-            good = with_nul is not None and without is not None and with_nul[nfix:] == [sarg] and without[nfix:] == [sarg, NUL] and with_nul[:nfix] == without[:nfix]
+            # the pieces before the string are the fixed fields: static widths that add up to the offset of the tail (which bytes they
+            # hold is C07's); how many slices they are spread over is free
+            good = False
+            if with_nul is not None and without is not None and sarg in with_nul:
+                nfix = with_nul.index(sarg)
+                widths = [c07.piece_width(p_) for p_ in with_nul[:nfix]]
+                good = with_nul[nfix:] == [sarg] and without[nfix:] == [sarg, NUL] and with_nul[:nfix] == without[:nfix] and \
+                    None not in widths and 8 + sum(widths) == a["tail"]["off"]
             ok_n = good
             why = "already-terminated branch %s; other branch %s" % ([G.show(p)[:30] for p in (with_nul or [])], [G.show(p)[:30] for p in (without or [])])
         ctx.check(ok_n, "S1", tyname + "::new", "%s::new(s): content = s's bytes, plus one NUL byte exactly when s does not already end with NUL (size = fixed + len [+1] by C16.N1)" % tyname,
